@@ -256,3 +256,31 @@ def const_str(repo: Repo, fi: FuncInfo, e: ast.AST) -> str | None:
     from core.fold import fold
 
     return fold(repo, fi.module, e, fi)
+
+
+def copy_prop(fi: FuncInfo):
+    """Substitution for `to_formula`: a local bound exactly once to a boolean-valued expression stands for that expression."""
+    single: dict[str, ast.expr] = {}
+    counts: dict[str, int] = {}
+    if isinstance(fi.node, ast.Lambda):
+        return lambda e: None
+    for n in own_nodes(fi.node):
+        if isinstance(n, ast.Name) and isinstance(n.ctx, ast.Store):
+            counts[n.id] = counts.get(n.id, 0) + 1
+        if isinstance(n, ast.Assign) and len(n.targets) == 1 and isinstance(n.targets[0], ast.Name):
+            single[n.targets[0].id] = n.value
+    params = set(fi.param_names)
+
+    def subst(e: ast.expr):
+        if isinstance(e, ast.Name) and e.id in single and counts.get(e.id) == 1 and e.id not in params:
+            v = single[e.id]
+            if isinstance(v, (ast.Call, ast.Compare, ast.BoolOp, ast.UnaryOp)):
+                return to_formula(v, subst)
+        return None
+
+    return subst
+
+
+def guard_formula(fi: FuncInfo, node: ast.AST) -> Formula:
+    """Path condition of `node` as a formula, with single-assignment boolean locals replaced by their definitions."""
+    return conds_formula(conds(fi, node), copy_prop(fi))
